@@ -180,6 +180,8 @@ pub fn err_class(e: &str) -> String {
         "syntax".into()
     } else if t.contains("not a valid float") || t.contains("is not a float") {
         "notfloat".into()
+    } else if t.contains("can't be converted into double") {
+        "notdouble".into()
     } else if t.contains("out of range, must be positive") {
         "outofrange".into()
     } else {
@@ -493,6 +495,7 @@ pub fn enc_cmd(cmd: &Command, reply: &RespValue) -> Option<String> {
                 Some((o, c)) => format!("{} {}", o, c),
             }
         ),
+        Command::Sort { key, store } => format!("SORT {} {}", hk(key), store.as_ref().map(|d| hk(d)).unwrap_or("-".into())),
         Command::LPop(k) => format!("LPOP {}", hk(k)),
         Command::RPop(k) => format!("RPOP {}", hk(k)),
         Command::LLen(k) => format!("LLEN {}", hk(k)),
@@ -510,6 +513,162 @@ pub fn enc_cmd(cmd: &Command, reply: &RespValue) -> Option<String> {
         }
         _ => return None,
     })
+}
+
+
+// ------------------------------------------------------------------------------------------
+// coverage table of the `Command` enum
+//
+// EVERY variant of `redis_sim::redis::Command` is classified here by a match WITHOUT a wildcard
+// arm: a variant added to the enum breaks the BUILD of this harness, which ./check reports as
+// `harness-build-failed` (with rustc's "pattern `Command::X` not covered").  That is the chosen
+// mechanism for "the real enum gained a variant the table does not know".
+//   Modelled      — in the reference model M7 (`Model.Redis`) and in the C01/C17 generators
+//   OracleOnly    — not modelled (reason given); the C17 snapshot oracles (error ⇒ no change,
+//                   read-only ⇒ no change) still run on it: they need no model
+//   NotExecuted   — not even executed by the sweep (reason given)
+#[derive(Clone, Copy, PartialEq, Debug)]
+pub enum Cover {
+    Modelled,
+    OracleOnly(&'static str),
+    NotExecuted(&'static str),
+}
+
+pub fn variant_info(c: &Command) -> (&'static str, Cover) {
+    use Cover::*;
+    const STUB: &str = "stub that answers a constant / server introspection, no keyspace semantics to model";
+    const CONN: &str = "handled at the connection level (ACL / auth state), the executor only answers a constant";
+    const TXN: &str = "transaction state machine (queue / watch set), subject of C05; no direct keyspace effect";
+    const SCRIPT: &str = "script cache only, no keyspace effect; scripting is covered by C16/C02";
+    match c {
+        Command::Get(_) => ("Get", Modelled),
+        Command::Set { .. } => ("Set", Modelled),
+        Command::Append(_, _) => ("Append", Modelled),
+        Command::GetSet(_, _) => ("GetSet", Modelled),
+        Command::StrLen(_) => ("StrLen", Modelled),
+        Command::MGet(_) => ("MGet", Modelled),
+        Command::MSet(_) => ("MSet", Modelled),
+        Command::MSetNx(_) => ("MSetNx", Modelled),
+        Command::BatchSet(_) => ("BatchSet", OracleOnly("internal shard-batch form of MSET, not reachable through RESP")),
+        Command::BatchGet(_) => ("BatchGet", OracleOnly("internal shard-batch form of MGET, not reachable through RESP")),
+        Command::GetRange(_, _, _) => ("GetRange", Modelled),
+        Command::SetRange(_, _, _) => ("SetRange", Modelled),
+        Command::SetBit(_, _, _) => ("SetBit", OracleOnly("bitmaps are outside the model")),
+        Command::GetBit(_, _) => ("GetBit", OracleOnly("bitmaps are outside the model")),
+        Command::GetEx { .. } => ("GetEx", Modelled),
+        Command::GetDel(_) => ("GetDel", Modelled),
+        Command::Incr(_) => ("Incr", Modelled),
+        Command::Decr(_) => ("Decr", Modelled),
+        Command::IncrBy(_, _) => ("IncrBy", Modelled),
+        Command::DecrBy(_, _) => ("DecrBy", Modelled),
+        Command::IncrByFloat(_, _) => ("IncrByFloat", OracleOnly("float formatting is outside the model")),
+        Command::Del(_) => ("Del", Modelled),
+        Command::Exists(_) => ("Exists", Modelled),
+        Command::TypeOf(_) => ("TypeOf", Modelled),
+        Command::Keys(_) => ("Keys", Modelled), // pattern `*`; other globs are oracle-only
+        Command::FlushDb => ("FlushDb", Modelled),
+        Command::FlushAll => ("FlushAll", Modelled),
+        Command::Expire { .. } => ("Expire", Modelled),
+        Command::ExpireAt(_, _) => ("ExpireAt", Modelled),
+        Command::PExpire { .. } => ("PExpire", Modelled),
+        Command::PExpireAt(_, _) => ("PExpireAt", Modelled),
+        Command::Ttl(_) => ("Ttl", Modelled),
+        Command::Pttl(_) => ("Pttl", Modelled),
+        Command::ExpireTime(_) => ("ExpireTime", Modelled),
+        Command::PExpireTime(_) => ("PExpireTime", Modelled),
+        Command::Persist(_) => ("Persist", Modelled),
+        Command::Wait(_, _) => ("Wait", OracleOnly(STUB)),
+        Command::Time => ("Time", OracleOnly(STUB)),
+        Command::Sort { .. } => ("Sort", Modelled),
+        Command::LPush(_, _) => ("LPush", Modelled),
+        Command::RPush(_, _) => ("RPush", Modelled),
+        Command::LPop(_) => ("LPop", Modelled),
+        Command::RPop(_) => ("RPop", Modelled),
+        Command::LLen(_) => ("LLen", Modelled),
+        Command::LIndex(_, _) => ("LIndex", Modelled),
+        Command::LRange(_, _, _) => ("LRange", Modelled),
+        Command::LSet(_, _, _) => ("LSet", Modelled),
+        Command::LTrim(_, _, _) => ("LTrim", Modelled),
+        Command::RPopLPush(_, _) => ("RPopLPush", Modelled),
+        Command::LMove { .. } => ("LMove", Modelled),
+        Command::SAdd(_, _) => ("SAdd", Modelled),
+        Command::SRem(_, _) => ("SRem", Modelled),
+        Command::SMembers(_) => ("SMembers", Modelled),
+        Command::SIsMember(_, _) => ("SIsMember", Modelled),
+        Command::SCard(_) => ("SCard", Modelled),
+        Command::SPop(_, _) => ("SPop", Modelled),
+        Command::HSet(_, _) => ("HSet", Modelled),
+        Command::HGet(_, _) => ("HGet", Modelled),
+        Command::HDel(_, _) => ("HDel", Modelled),
+        Command::HGetAll(_) => ("HGetAll", Modelled),
+        Command::HKeys(_) => ("HKeys", Modelled),
+        Command::HVals(_) => ("HVals", Modelled),
+        Command::HLen(_) => ("HLen", Modelled),
+        Command::HExists(_, _) => ("HExists", Modelled),
+        Command::HIncrBy(_, _, _) => ("HIncrBy", Modelled),
+        Command::ZAdd { .. } => ("ZAdd", Modelled),
+        Command::ZRem(_, _) => ("ZRem", Modelled),
+        Command::ZRange(_, _, _, _) => ("ZRange", Modelled),
+        Command::ZRevRange(_, _, _, _) => ("ZRevRange", Modelled),
+        Command::ZScore(_, _) => ("ZScore", Modelled),
+        Command::ZRank(_, _) => ("ZRank", Modelled),
+        Command::ZCard(_) => ("ZCard", Modelled),
+        Command::ZCount(_, _, _) => ("ZCount", Modelled),
+        Command::ZRangeByScore { .. } => ("ZRangeByScore", Modelled),
+        Command::Scan { .. } => ("Scan", OracleOnly("cursor paging over hash-map order; shard-level behaviour is C03's subject")),
+        Command::HScan { .. } => ("HScan", OracleOnly("cursor paging over hash-map order")),
+        Command::ZScan { .. } => ("ZScan", OracleOnly("cursor paging")),
+        Command::Multi => ("Multi", OracleOnly(TXN)),
+        Command::Exec => ("Exec", OracleOnly(TXN)),
+        Command::Discard => ("Discard", OracleOnly(TXN)),
+        Command::Watch(_) => ("Watch", OracleOnly(TXN)),
+        Command::Unwatch => ("Unwatch", OracleOnly(TXN)),
+        Command::Eval { .. } => ("Eval", NotExecuted("Lua scripts: Redis itself does not roll back a script that fails after a write, so error⇒no-change is not the specification; scripting is covered by C16/C02")),
+        Command::EvalSha { .. } => ("EvalSha", NotExecuted("as Eval")),
+        Command::ScriptLoad(_) => ("ScriptLoad", OracleOnly(SCRIPT)),
+        Command::ScriptExists(_) => ("ScriptExists", OracleOnly(SCRIPT)),
+        Command::ScriptFlush => ("ScriptFlush", OracleOnly(SCRIPT)),
+        Command::SetNx(_, _) => ("SetNx", Modelled),
+        Command::Info => ("Info", OracleOnly(STUB)),
+        Command::Ping(_) => ("Ping", OracleOnly(STUB)),
+        Command::DbSize => ("DbSize", Modelled),
+        Command::Auth { .. } => ("Auth", OracleOnly(CONN)),
+        Command::AclWhoami => ("AclWhoami", OracleOnly(CONN)),
+        Command::AclList => ("AclList", OracleOnly(CONN)),
+        Command::AclUsers => ("AclUsers", OracleOnly(CONN)),
+        Command::AclGetUser { .. } => ("AclGetUser", OracleOnly(CONN)),
+        Command::AclSetUser { .. } => ("AclSetUser", OracleOnly(CONN)),
+        Command::AclDelUser { .. } => ("AclDelUser", OracleOnly(CONN)),
+        Command::AclCat { .. } => ("AclCat", OracleOnly(CONN)),
+        Command::AclGenPass { .. } => ("AclGenPass", OracleOnly(CONN)),
+        Command::AclDryrun { .. } => ("AclDryrun", OracleOnly(CONN)),
+        Command::AclLog { .. } => ("AclLog", OracleOnly(CONN)),
+        Command::AclLogReset => ("AclLogReset", OracleOnly(CONN)),
+        Command::ConfigGet(_) => ("ConfigGet", OracleOnly(STUB)),
+        Command::ConfigSet(_, _) => ("ConfigSet", OracleOnly("server configuration, no keyspace effect")),
+        Command::ConfigResetStat => ("ConfigResetStat", OracleOnly(STUB)),
+        Command::Select(_) => ("Select", OracleOnly(STUB)),
+        Command::Echo(_) => ("Echo", OracleOnly(STUB)),
+        Command::CommandCommand => ("CommandCommand", OracleOnly(STUB)),
+        Command::CommandCount => ("CommandCount", OracleOnly(STUB)),
+        Command::FunctionFlush => ("FunctionFlush", OracleOnly(STUB)),
+        Command::ClientSetName(_) => ("ClientSetName", OracleOnly(STUB)),
+        Command::ClientGetName => ("ClientGetName", OracleOnly(STUB)),
+        Command::ClientId => ("ClientId", OracleOnly(STUB)),
+        Command::ClientInfo => ("ClientInfo", OracleOnly(STUB)),
+        Command::ObjectHelp => ("ObjectHelp", OracleOnly(STUB)),
+        Command::ObjectEncoding(_) => ("ObjectEncoding", OracleOnly("encoding names are an implementation detail (excluded in DESIGN §4 C01)")),
+        Command::ObjectRefCount(_) => ("ObjectRefCount", OracleOnly(STUB)),
+        Command::ObjectIdleTime(_) => ("ObjectIdleTime", OracleOnly(STUB)),
+        Command::ObjectFreq(_) => ("ObjectFreq", OracleOnly(STUB)),
+        Command::DebugSleep(_) => ("DebugSleep", OracleOnly(STUB)),
+        Command::DebugSet(_, _) => ("DebugSet", OracleOnly(STUB)),
+        Command::DebugObject(_) => ("DebugObject", OracleOnly(STUB)),
+        Command::RandomKey => ("RandomKey", Modelled),
+        Command::Rename(_, _) => ("Rename", Modelled),
+        Command::RenameNx(_, _) => ("RenameNx", Modelled),
+        Command::Unknown(_) => ("Unknown", OracleOnly("unknown command names (error reply, XADD/XINFO stubs)")),
+    }
 }
 
 // ------------------------------------------------------------------------------------------
@@ -673,7 +832,8 @@ pub fn gen_key_cmd(rng: &mut Rng) -> Command {
             }
         }
         15 | 16 => Command::RandomKey,
-        17..=20 => Command::Rename(k, key(rng)),
+        17..=19 => Command::Rename(k, key(rng)),
+        20 => Command::Sort { key: k, store: if rng.chance(1, 2) { Some(key(rng)) } else { None } },
         _ => Command::RenameNx(k, key(rng)),
     }
 }
@@ -923,6 +1083,10 @@ pub fn do_step(out: &mut Out, s: &mut Sess, cmd: &Command, prop: &str, seq: &[St
         out.count("effect:keyspace-changed");
     }
     let modelled = op.is_some();
+    if modelled && variant_info(cmd).1 != Cover::Modelled {
+        eprintln!("coverage table out of date: {:?} has a model op line but is not classified Modelled", variant_info(cmd).0);
+        std::process::exit(3);
+    }
     let opline = match &op {
         Some(o) => format!("{} {} ;; {}", now, o, after),
         None => format!("{} ADOPT ;; {}", now, after),
